@@ -48,8 +48,15 @@ def is_marked(value):
 _OWN = {
     "RunIf(dup)": lambda: lena.flow.RunIf(cm.even, Dup()),
     "RunIf(drop)": lambda: lena.flow.RunIf(cm.even, lena.flow.Filter(cm.nothing)),
+    # selects runs of consecutive values; the inner element depends on how many values one run() of
+    # it receives (RunIf documents a run per selected value: Split(bufsize=1))
+    "RunIf(nonneg,Reverse)": lambda: lena.flow.RunIf(nonneg, lena.flow.Reverse()),
     "markB": lambda: markB,
 }
+
+
+def nonneg(value):
+    return cm.data_of(value) >= 0
 
 
 def build(spec):
@@ -79,7 +86,7 @@ def kind_of(spec):
 # alphabets
 
 PRE_QUICK = ["inc", "Variable", "Filter(even)", "Filter(nothing)", "Slice(2)", "Slice(1,3)", "Slice(0)",
-             "Slice(1,5,2)", "Slice(1,None)", "RunIf", "RunIf(dup)", "RunIf(drop)"]
+             "Slice(1,5,2)", "Slice(1,None)", "RunIf", "RunIf(dup)", "RunIf(drop)", "RunIf(nonneg,Reverse)"]
 PRE_THOROUGH = PRE_QUICK + ["Call(inc)", "Slice(0,None,2)", "Slice(None,4,3)"]
 ACCS = ["Sum", "DSum", "Mean", "Mean(pass_on_empty)", "VarianceMeanCount",
         "VarianceMeanCount(pass_on_empty)", "FillCompute(Count)", "StoreFilled",
